@@ -1,44 +1,43 @@
 #!/bin/bash
-# tools/seed_eval.sh <PID> [<name>] [<checks...>]: confirm a sub-agent's seeded change from /tmp/seed-<PID>-out, store it under
-# /verif/seeded/<name>, then run our check(s) against /repo with the change applied and undo it.
+# tools/seed_eval.sh <PID> <name> [<checks...>]: confirm a sub-agent's seeded change from /tmp/seed-<PID>-out on a fresh
+# scratch worktree (tests still pass, demo fails with / passes without), store it under /verif/seeded/<name>, then run our
+# check(s) against that scratch tree (LOMOND_ROOT) - equivalent to applying the patch to /repo, without touching /repo.
 set -u
 PID=$1; NAME=${2:-$PID}; shift; shift || true
 CHECKS=${*:-$PID}
-OUT=/tmp/seed-$PID-out
+OUT=${SEED_OUT:-/tmp/seed-$PID-out}
 W=/tmp/seedchk-$NAME
 [ -f $OUT/patch.diff ] || { echo "no patch for $PID"; exit 2; }
 git -C /repo worktree remove --force $W >/dev/null 2>&1
 git -C /repo worktree add -q --detach $W HEAD || exit 2
+trap 'git -C /repo worktree remove --force '$W' >/dev/null 2>&1' EXIT
 cd $W
 D0=$(PYTHONPATH=$W timeout 300 /venv/bin/python $OUT/demo.py >/tmp/seedchk-$NAME.demo0 2>&1; echo $?)
-git apply $OUT/patch.diff || { echo "patch does not apply"; git -C /repo worktree remove --force $W; exit 2; }
+git apply $OUT/patch.diff || { echo "patch does not apply"; exit 2; }
 T=$(timeout 600 /venv/bin/python -m pytest -q -p no:cacheprovider --timeout=900 2>&1 | tail -1)
 D1=$(PYTHONPATH=$W timeout 300 /venv/bin/python $OUT/demo.py >/tmp/seedchk-$NAME.demo1 2>&1; echo $?)
 cd /verif
-git -C /repo worktree remove --force $W
 echo "tests-with-change: $T | demo without change exit=$D0 | demo with change exit=$D1"
 mkdir -p /verif/seeded/$NAME
 cp $OUT/patch.diff /verif/seeded/$NAME/patch.diff
 cp $OUT/demo.py /verif/seeded/$NAME/demo.py
 [ -f $OUT/notes.md ] && cp $OUT/notes.md /verif/seeded/$NAME/notes.md
-# run our checks with the change applied to /repo
-trap 'git -C /repo checkout -- . ' EXIT
-git -C /repo apply /verif/seeded/$NAME/patch.diff || { echo "cannot apply to /repo"; exit 2; }
 RES=""
 for C in $CHECKS; do
-  timeout 1500 ./check $C > /tmp/seedchk-$NAME.$C.out 2>&1; E=$?
+  cp evidence/$C.json /tmp/seedchk-$NAME.$C.evidence.bak 2>/dev/null
+  LOMOND_ROOT=$W timeout 1500 ./check $C > /tmp/seedchk-$NAME.$C.out 2>&1; E=$?
+  cp /tmp/seedchk-$NAME.$C.evidence.bak evidence/$C.json 2>/dev/null
   V=$(grep -c '^VIOLATION' /tmp/seedchk-$NAME.$C.out)
+  NF=$(grep '^VIOLATION' /tmp/seedchk-$NAME.$C.out | grep -vc 'no-failing-input-found')
   F=$(grep '^VIOLATION' /tmp/seedchk-$NAME.$C.out | head -2 | sed 's/.*obligation=//' | tr '\n' ';')
-  echo "check $C: exit=$E violations=$V first: $F"
+  echo "check $C: exit=$E violations=$V (with replayed failing input: $NF) first: $F"
   tail -1 /tmp/seedchk-$NAME.$C.out
-  RES="$RES $C:exit=$E:violations=$V"
+  RES="$RES $C:exit=$E:violations=$V:replayed=$NF"
 done
-git -C /repo checkout -- .
-git -C /repo status --short | head -3
 python3 - <<PY
-import json
+import json, os
 meta=dict(property="$PID", name="$NAME", tests_with_change="""$T""", demo_exit_without_change=$D0, demo_exit_with_change=$D1,
-          checks_run="""$RES""".split(), source="independent sub-agent given only the property text and a scratch worktree",
-          needs=open("/verif/seeded/$NAME/notes.md").read()[:1500] if __import__('os').path.exists("/verif/seeded/$NAME/notes.md") else "")
+          checks_run="""$RES""".split(), source="independent sub-agent given only the property text and a scratch worktree; confirmed here on a fresh worktree of /repo HEAD",
+          needs=open("/verif/seeded/$NAME/notes.md").read()[:2000] if os.path.exists("/verif/seeded/$NAME/notes.md") else "")
 json.dump(meta, open("/verif/seeded/$NAME/meta.json","w"), indent=1)
 PY
